@@ -431,8 +431,47 @@ def dispOpen (hn : Str) : Option Str :=
   else if (dateKey hn).isSome then none
   else if isTitle hn then some (S "title") else (contentKey hn).map (·.1)
 
-/-- the stage-4 / stage-5 kinds -/
-def lgOk (kind : Str) : Bool := kind == S "link" || kind == S "guid" || kind == S "category" || kind == S "enclosure"
+/-- the stage-7 kinds -/
+def akOk (kind : Str) : Bool := kind == S "author" || kind == S "contributor" || kind == S "name" || kind == S "email" || kind == S "url"
+
+theorem startAuthorKinds_isSome (c : Core) (kind : Str) (a : List (Str × Str)) : (startAuthorKinds c kind a).isSome = akOk kind := by
+  unfold startAuthorKinds akOk
+  by_cases h1 : (kind == S "author") = true
+  · simp [h1]
+  · simp only [h1, Bool.false_eq_true, ↓reduceIte, Bool.false_or]
+    by_cases h2 : (kind == S "contributor") = true
+    · simp [h2]
+    · simp only [h2, Bool.false_eq_true, ↓reduceIte, Bool.false_or]
+      by_cases h3 : (kind == S "name") = true
+      · simp [h3]
+      · simp only [h3, Bool.false_eq_true, ↓reduceIte, Bool.false_or]
+        by_cases h4 : (kind == S "email") = true
+        · simp [h4]
+        · simp only [h4, Bool.false_eq_true, ↓reduceIte, Bool.false_or]
+          by_cases h5 : (kind == S "url") = true
+          · simp [h5]
+          · simp [h5]
+
+theorem endAuthorKinds_isSome (o : Ops) (s : MSt) (kind : Str) : (endAuthorKinds o s kind).isSome = akOk kind := by
+  unfold endAuthorKinds akOk
+  by_cases h1 : (kind == S "author") = true
+  · simp [h1]
+  · simp only [h1, Bool.false_eq_true, ↓reduceIte, Bool.false_or]
+    by_cases h2 : (kind == S "contributor") = true
+    · simp [h2]
+    · simp only [h2, Bool.false_eq_true, ↓reduceIte, Bool.false_or]
+      by_cases h3 : (kind == S "name") = true
+      · simp [h3]
+      · simp only [h3, Bool.false_eq_true, ↓reduceIte, Bool.false_or]
+        by_cases h4 : (kind == S "email") = true
+        · simp [h4]
+        · simp only [h4, Bool.false_eq_true, ↓reduceIte, Bool.false_or]
+          by_cases h5 : (kind == S "url") = true
+          · simp [h5]
+          · simp [h5]
+
+/-- the stage-4 / 5 / 7 kinds -/
+def lgOk (kind : Str) : Bool := kind == S "link" || kind == S "guid" || kind == S "category" || kind == S "enclosure" || akOk kind
 
 theorem startLG_isOk (o : Ops) (c : Core) (kind : Str) (a : List (Str × Str)) : (startLG o c kind a).isOk = lgOk kind := by
   unfold startLG lgOk
@@ -451,8 +490,10 @@ theorem startLG_isOk (o : Ops) (c : Core) (kind : Str) (a : List (Str × Str)) :
       · simp only [h3, ↓reduceIte, Bool.true_or]; rfl
       · simp only [h3, Bool.false_eq_true, ↓reduceIte, Bool.false_or]
         by_cases h4 : (kind == S "enclosure") = true
-        · simp only [h4, ↓reduceIte]; rfl
-        · simp only [h4, Bool.false_eq_true, ↓reduceIte]; rfl
+        · simp only [h4, ↓reduceIte, Bool.true_or]; rfl
+        · simp only [h4, Bool.false_eq_true, ↓reduceIte, Bool.false_or]
+          rw [← startAuthorKinds_isSome c kind a]
+          cases startAuthorKinds c kind a <;> rfl
 
 theorem endLG_isOk (o : Ops) (s : MSt) (kind : Str) :
     (match endLG o s kind with | .ok _ => true | .unmodelled _ => false) = lgOk kind := by
@@ -467,8 +508,10 @@ theorem endLG_isOk (o : Ops) (s : MSt) (kind : Str) :
       · simp only [h3, ↓reduceIte, Bool.true_or]
       · simp only [h3, Bool.false_eq_true, ↓reduceIte, Bool.false_or]
         by_cases h4 : (kind == S "enclosure") = true
-        · simp only [h4, ↓reduceIte]
-        · simp only [h4, Bool.false_eq_true, ↓reduceIte]
+        · simp only [h4, ↓reduceIte, Bool.true_or]
+        · simp only [h4, Bool.false_eq_true, ↓reduceIte, Bool.false_or]
+          rw [← endAuthorKinds_isSome o s kind]
+          cases endAuthorKinds o s kind <;> rfl
 
 /-- one event of the version sub-machine; `none` = outside the model's domain -/
 def vStep (loose : Bool) (x : VX) : MEv → Option VX
@@ -1546,5 +1589,63 @@ example :
                  [(S "term", some (S "News")), (S "scheme", none), (S "label", none)],
                  [(S "term", some (S "Tech")), (S "scheme", none), (S "label", none)]]),
        some (.l [[(S "length", some (S "1")), (S "type", some (S "audio/mpeg")), (S "href", some (S "u.mp3")), (S "rel", some (S "enclosure"))]])) := by decide +kernel
+
+/-! ### author of an entry (M-mixin stage 7) -/
+
+theorem author_key : canonKey (S "author") = S "author" := by decide +kernel
+
+/-- **`author` is rebuilt from the structured author as `name (email)`** (`_sync_author_detail`): whenever the last entry of `authors` carries a non-empty name and a
+non-empty e-mail address, the author string of that context is exactly `name (email)` — whatever it was before -/
+theorem author_string_from_name_and_email (o : Ops) (d : D) (before : List Item) (last : Item) (n e : Str)
+    (hl : dget d (S "authors") = some (.l (before ++ [last]))) (hn : iget last (S "name") = some n) (he : iget last (S "email") = some e)
+    (hn0 : n.isEmpty = false) (he0 : e.isEmpty = false) :
+    dget (syncAuthor o d) (S "author") = some (.s (n ++ S " (" ++ e ++ S ")")) := by
+  have hne : last ≠ [] := by intro h; rw [h] at hn; simp [iget] at hn
+  unfold syncAuthor
+  simp only [listOf, hl, List.reverse_append, List.reverse_cons, List.reverse_nil, List.nil_append, List.cons_append]
+  cases last with
+  | nil => exact absurd rfl hne
+  | cons p rest =>
+    simp only [hn, he, truthyO, hn0, he0, Bool.not_false, Bool.and_self, ↓reduceIte, Option.getD_some]
+    unfold fset
+    rw [author_key]
+    exact dget_dset_same _ _ _
+
+/-- …and as the name alone when there is no e-mail address -/
+theorem author_string_from_name (o : Ops) (d : D) (before : List Item) (last : Item) (n : Str)
+    (hl : dget d (S "authors") = some (.l (before ++ [last]))) (hn : iget last (S "name") = some n) (he : truthyO (iget last (S "email")) = false)
+    (hn0 : n.isEmpty = false) :
+    dget (syncAuthor o d) (S "author") = some (.s n) := by
+  have hne : last ≠ [] := by intro h; rw [h] at hn; simp [iget] at hn
+  unfold syncAuthor
+  simp only [listOf, hl, List.reverse_append, List.reverse_cons, List.reverse_nil, List.nil_append, List.cons_append]
+  cases last with
+  | nil => exact absurd rfl hne
+  | cons p rest =>
+    have hn' : truthyO (some n) = true := by simp [truthyO, hn0]
+    simp only [hn, hn', he, Bool.true_and, Bool.false_eq_true, ↓reduceIte, Option.getD_some]
+    unfold fset
+    rw [author_key]
+    exact dget_dset_same _ _ _
+
+/-- non-vacuity and the guard of the source fingerprints: an Atom author with name, e-mail and uri; an RSS author text with an address (taken apart: the same dict is
+`author_detail` and the last entry of `authors`); two authors in one entry; a contributor -/
+example :
+    let o : Ops := { base := ⟨fun _ r => r, fun u => u, fun b r => b ++ r⟩, join := fun b u => b ++ S "|" ++ u, fix := id, loose := false,
+                     emailMatch := fun a => if a == S "jane@example.org (Jane Doe)" then some (S "jane@example.org") else none }
+    let start : MSt := { c := { entries := [{}], inentry := true, infeed := true, version := S "atom10", base := ⟨"http://b/", none, ["http://b/"], [none]⟩ } }
+    let get (k : String) (r : Outcome) : Option V := match r with | .ok s' => s'.c.entries.head?.bind fun e => dget e.d (S k) | .unmodelled _ => none
+    let atom := mrun o start [.start (S "author") [], .start (S "name") [], .data (S "Jane"), .stop (S "name"), .start (S "email") [], .data (S "j@x.example"), .stop (S "email"),
+                             .start (S "uri") [], .data (S "jane"), .stop (S "uri"), .stop (S "author")]
+    let rss := mrun o start [.start (S "author") [], .data (S "jane@example.org (Jane Doe)"), .stop (S "author")]
+    let two := mrun o start [.start (S "author") [], .start (S "name") [], .data (S "A"), .stop (S "name"), .stop (S "author"),
+                            .start (S "author") [], .start (S "name") [], .data (S "B"), .stop (S "name"), .stop (S "author"),
+                            .start (S "contributor") [], .start (S "name") [], .data (S "C"), .stop (S "name"), .stop (S "contributor")]
+    ((get "author" atom, get "authors" atom, get "author_detail" atom, get "author" rss, get "author_detail" rss, get "authors" rss, get "author" two, get "authors" two, get "contributors" two) ==
+     (some (.s (S "Jane (j@x.example)")),
+      some (.l [[(S "name", some (S "Jane")), (S "email", some (S "j@x.example")), (S "href", some (S "http://b/|jane"))]]),
+      some (.det [(S "name", some (S "Jane")), (S "email", some (S "j@x.example")), (S "href", some (S "http://b/|jane"))]),
+      some (.s (S "jane@example.org (Jane Doe)")), some (.ref 0), some (.l [[(S "name", some (S "Jane Doe")), (S "email", some (S "jane@example.org"))]]),
+      some (.s (S "B")), some (.l [[(S "name", some (S "A"))], [(S "name", some (S "B"))]]), some (.l [[(S "name", some (S "C"))]]))) = true := by decide +kernel
 
 end FeedVerif.Mixin
